@@ -4,7 +4,7 @@
 use serde_json::{json, Value};
 use winter_utils::{ByteReader, DeserializationError, ReadAdapter, SliceReader};
 
-use crate::util::{bytes_of, catch, json_bytes, read_ndjson, usizes_of, Out};
+use wfcommon::util::{bytes_of, catch, json_bytes, read_ndjson, usizes_of, Out};
 
 struct Scripted {
     data: Vec<u8>,
